@@ -445,6 +445,14 @@ func (th *Thread) convert(fr *Frame, x Value, from, to types.Type) Value {
 				}
 				return strConst(ctx, string(out))
 			case *Term:
+				if !v.IsConst() && v.W == 32 {
+					if th.branchAt(fr, "runeascii", ctx.Ult(v, ctx.Const(32, 0x80))) {
+						return &StrV{B: []*Term{ctx.Extract(v, 7, 0)}}
+					}
+					enc := th.p.eng.resolveFunc("unicode/utf8.AppendRune")
+					r := th.callFunction(&FuncV{Fn: enc}, []Value{&SliceV{}, v}).(*SliceV)
+					return &StrV{B: sliceTerms(r)}
+				}
 				rv := th.p.Concretize(v, "int->string")
 				r := rune(sx(rv, v.W))
 				if sx(rv, v.W) < 0 || sx(rv, v.W) > 0x10FFFF {
@@ -848,24 +856,32 @@ func (th *Thread) next(fr *Frame, i *ssa.Next) Value {
 				return TupleV{ctx.True(), ctx.Const(64, uint64(pos)), ctx.ZExt(b0, 32)}
 			}
 		}
-		// decode with concrete bytes
+		// decode with concrete bytes when possible
 		end := pos + 4
 		if end > len(s.B) {
 			end = len(s.B)
 		}
-		buf := make([]byte, 0, 4)
+		allConst := true
 		for k := pos; k < end; k++ {
-			buf = append(buf, byte(th.p.Concretize(s.B[k], "utf8 decode")))
-			if k == pos && buf[0] < 0x80 {
-				break
-			}
-			if utf8.FullRune(buf) {
-				break
+			if !s.B[k].IsConst() {
+				allConst = false
 			}
 		}
-		r, sz := utf8.DecodeRune(buf)
+		if allConst {
+			buf := make([]byte, 0, 4)
+			for k := pos; k < end; k++ {
+				buf = append(buf, byte(s.B[k].Val))
+			}
+			r, sz := utf8.DecodeRune(buf)
+			it.Pos += sz
+			return TupleV{ctx.True(), ctx.Const(64, uint64(pos)), ctx.Const(32, uint64(uint32(r)))}
+		}
+		// symbolic multi-byte sequence: run the real decoder symbolically
+		dec := th.p.eng.resolveFunc("unicode/utf8.DecodeRuneInString")
+		res := th.callFunction(&FuncV{Fn: dec}, []Value{&StrV{B: s.B[pos:]}}).(TupleV)
+		sz := int(th.p.Concretize(res[1].(*Term), "utf8 size"))
 		it.Pos += sz
-		return TupleV{ctx.True(), ctx.Const(64, uint64(pos)), ctx.Const(32, uint64(uint32(r)))}
+		return TupleV{ctx.True(), ctx.Const(64, uint64(pos)), res[0]}
 	}
 	tup := i.Type().(*types.Tuple)
 	for it.Pos < len(it.KIdx) {
